@@ -121,3 +121,29 @@ Example C05_too_small_replayer_loses_events :
   run_conns_b 2 c05_order [49] [mkconn 3 4 None] = map event_of (skipn 3 c05_order) /\
   run_conns c05_order [49] [mkconn 3 4 None] = map event_of (skipn 1 c05_order).
 Proof. vm_compute. repeat split; repeat constructor. Qed.
+
+(* ---- any replayer that holds a SUFFIX of the put history.  [keep cn] = how many of the newest accepted puts
+   the replayer holds when connection cn is registered: N for a FiniteReplayer (C08), the number of entries not yet
+   collected for a ValidReplayer (C09; a collection removes a prefix: C05_collect_keeps_a_suffix) - it may differ
+   from connection to connection.  Proviso per connection: cn_p - i < keep cn (the event the client holds is still
+   stored).  Same conclusion as C05_end_to_end. *)
+Theorem C05_end_to_end_any_suffix_replayer :
+  forall keep order, pub_ok order ->
+  forall conns A m B, order = A ++ m :: B ->
+  valid_conns_k keep order (S (length A)) (mid m) conns ->
+  exists n, run_conns_k keep order (mid m) conns = map event_of (firstn n B) /\ (n <= length B)%nat /\
+            (forall cl, final_conn conns = Some cl -> cn_cut cl = None -> (S (length A) + n)%nat = cn_j cl).
+Proof. exact end_to_end_suffix. Qed.
+
+Theorem C05_collect_keeps_a_suffix :
+  forall (l : list entry) now, collect l now = lastn (length (collect l now)) l.
+Proof. exact collect_is_lastn. Qed.
+
+(* non-vacuity: the sample run with a replayer that holds 1, 3, 2, 2 events at the four registrations *)
+(* non-vacuity: the sample run with a replayer that holds 1, 2, 3, 2 events at the four registrations - each time
+   just enough (the first two connections deliver nothing, so three events are owed at the third) *)
+Example C05_sample_valid_suffix :
+  let keep := fun cn : conn => match cn_p cn with 1 => 1 | 2 => 2 | 3 => 3 | _ => 2 end%nat in
+  valid_conns_k keep c05_order 1 [49] c05_conns /\
+  run_conns_k keep c05_order [49] c05_conns = map event_of (skipn 1 c05_order).
+Proof. vm_compute. repeat split; repeat constructor. Qed.
